@@ -8,6 +8,8 @@
 //	                   p2|p3 (file store) inside VisitMailboxes, right before it reads the level-2 /
 //	                         level-3 directory that holds the operation's mailbox (verifhook points)
 //	              op   add:<mb> | rm:<mb>:<k> | purge:<mb> | seen:<mb>:<k>
+//	                   padd:<mb> (only at r<n>): a delivery already past its mailbox lookup when the scanner's
+//	                   n-th RemoveMessage runs, taking the mailbox lock right after it (reported as a<n>/add)
 //	   cancelAt n: the context is cancelled during the n-th callback; "-": never
 //	 => <order of callbacks> <ok|ERR> <callbacks> E=<effective schedule> D=<survivors> R=<removed by the scanner>
 //	start <store> <period_s> <cancel_ms> <boxes>      cancel_ms < 0: never cancelled; >= 60000: Start's first scan
@@ -64,6 +66,12 @@ type drv struct {
 	eff       []string
 	removed   []string
 	busy      int32
+	// a delivery parked between its mailbox lookup and its mailbox lock (memory store: verifhook mem.wm.lock)
+	isMem   bool
+	armed   int32
+	parkMb  string
+	parked  chan struct{}
+	release chan struct{}
 }
 
 func (d *drv) add(mb string, age int) {
@@ -155,7 +163,32 @@ func (h *hookStore) RemoveMessage(mb, id string) error {
 	d := h.d
 	d.attempts++
 	pos := "r" + strconv.Itoa(d.attempts)
-	d.fire(func(in *inj) bool { return in.pos == pos }, pos)
+	d.fire(func(in *inj) bool { return in.pos == pos && in.op[0] != "padd" }, pos)
+	// "padd" (at most one per position): a delivery that has already looked its mailbox up when this
+	// removal runs and takes the mailbox lock only afterwards (memory store: parked at the verifhook
+	// point mem.wm.lock); it is linearised right after the removal. File store: delivered right after.
+	var late *inj
+	for _, in := range d.injs {
+		if !in.done && in.pos == pos && in.op[0] == "padd" {
+			in.done = true
+			late = in
+			break
+		}
+	}
+	var fin chan struct{}
+	if late != nil && d.isMem {
+		target := vh.US(late.op[1])
+		d.parkMb, d.parked, d.release = target, make(chan struct{}), make(chan struct{})
+		fin = make(chan struct{})
+		atomic.StoreInt32(&d.armed, 1)
+		go func() { d.add(target, 0); close(fin) }()
+		select {
+		case <-d.parked:
+		case <-fin:
+		case <-time.After(2 * time.Second):
+		}
+		atomic.StoreInt32(&d.armed, 0)
+	}
 	err := h.Store.RemoveMessage(mb, id)
 	if err == nil {
 		k := "?"
@@ -163,6 +196,19 @@ func (h *hookStore) RemoveMessage(mb, id string) error {
 			k = strconv.Itoa(v)
 		}
 		d.removed = append(d.removed, vh.HS(mb)+"."+k)
+	}
+	if late != nil {
+		if d.isMem {
+			close(d.release)
+			select {
+			case <-fin:
+			case <-time.After(5 * time.Second):
+				d.eff = append(d.eff, "STUCK")
+			}
+		} else {
+			d.add(vh.US(late.op[1]), 0)
+		}
+		d.eff = append(d.eff, "a"+strconv.Itoa(d.attempts)+"/add:"+late.op[1])
 	}
 	return err
 }
@@ -271,7 +317,15 @@ func runScan(in []string) []string {
 	rs := storage.NewRetentionScanner(config.Storage{RetentionPeriod: time.Duration(period) * time.Second, RetentionSleep: sleep},
 		&hookStore{Store: st, d: d})
 	// file store: operations forced between the directory reads of the walk
+	d.isMem = in[0] == "mem"
 	verifhook.Set(func(site, arg string) {
+		if site == "mem.wm.lock" {
+			if arg == d.parkMb && atomic.CompareAndSwapInt32(&d.armed, 1, 0) {
+				close(d.parked)
+				<-d.release
+			}
+			return
+		}
 		if site != "file.visit.l2" && site != "file.visit.l3" {
 			return
 		}
